@@ -52,6 +52,11 @@ CLAIMS["C08"] = ("bounded symbolic execution (symx, real arithmetic) of the real
          "listed LAParams vector (defaults, boxes_flow=None, detect_vertical, negative, ...), analysis terminates, every item occurs exactly once, every line/box/group box is the union of its members, lines end in a "
          "line break and are ordered inside boxes, boxes are numbered 0..n-1, container text is the concatenation. One z3 formula per path; bounded.",
          "4.C08")
+CLAIMS["C09"] = ("bounded symbolic execution (symx, real arithmetic) of the real group_objects / LTTextLine*.add / find_neighbors / analyze on two objects with symbolic boxes and symbolic LAParams",
+         "For ALL box coordinates and ALL line_overlap in [0,1), char_margin, word_margin: two consecutive glyphs share a line exactly when they overlap vertically by more than line_overlap x min height and are "
+         "closer than char_margin x max width, and a space is inserted exactly when the gap exceeds word_margin x size; the neighbour relation of two lines equals the documented close/same-size/aligned rule "
+         "(both orientations); a single column reads top to bottom and a left column before a right one for every boxes_flow in (-1,1) and None; the layout of two glyphs is unchanged under scaling by 1/4..8.",
+         "4.C09")
 NA = {}
 def main():
     props = [json.loads(l) for l in open(os.path.join(ROOT, "properties.jsonl"))]
